@@ -240,7 +240,82 @@ claim("C16", "proof",
       "Lean 4 proof (generic unwinding theorem + obligations over tables regenerated from C source) + fault injection on the real libraries",
       "lean-translator")
 
+claim("C10", "other",
+      "Byte-level OBU framing contract of the decoder, proved in Lean over a byte-accurate hand-written model (svt_av1_dec_frame, decode_multiple_obu, "
+      "dec_bits_init, GET_BITS, read_obu_header/size, leb128) in which every load is recorded and size_t arithmetic is explicit: for the code /repo HEAD "
+      "carries (repairs d275934, 9d9bd69, b7f2870, 005adc2, 22460a9, detected in the source by tree_flags) every framing-layer load is below data_size, "
+      "no size_t wraps, no uninitialised size is read and svt_av1_dec_frame returns, for all inputs and whatever the payload parsers do "
+      "(obu_walk_reads_in_bounds_fixed, walk_terminates_fixed, walk_progress, leb128_decode_bounds); for the code before the repairs the exact side conditions and "
+      "concrete witnesses of the nine repaired defects (a reverted repair switches the model variant and the defect returns as a VIOLATION with its input). Model "
+      "and real decoder (ASan+UBSan, guarded per-OBU trace hook) are compared on seed-driven EXPLORATION inputs that the model proves stay inside the framing layer "
+      "(trace, calls, highest load, outcome) and on a committed REGRESSION CORPUS (corpus/c10, 2016 inputs, independent of VERIF_SEED) that enters the payload "
+      "parsers. Everything below the framing layer is exercised by that corpus only, not proved.",
+      AX + "; Model/ObuWalk.lean is a hand transcription tied by correspondence (~1.3 k inputs quick, ~5.9 k thorough, 0 disagreements); payload parsers opaque "
+      "(outcome per OBU from the real run; obu_header.payload_size as modified by them is outside the model: counted and skipped); UBSan alignment check off; "
+      "ASan sees loads only near red zones; below the framing layer 27 recorded sanitizer/assert sites (F9b) and the Debug seen_frame_header assert remain - "
+      "new seeds are deliberately kept out of that code (the decoder is known to be fragile there and each new crash site would be a new, unlisted genuine "
+      "finding), so the check says nothing about further defects there.",
+      "Lean 4 proof over a hand-written model + differential correspondence with the real decoder + fixed sanitizer regression corpus",
+      "lean-correspondence")
+
+claim("C05", "proof",
+      "load_default_buffer_configuration_settings and set_parent_pcs are re-translated from the clang AST on every run (SSA symbolic execution, cut at core_count). "
+      "Proved for all input values and all processor counts: only the 46 members of the hand-written, tight parallelGeometry list can depend on core_count "
+      "(core_count_only_affects_geometry: semantic non-interference; parallelGeometry_tight); logical_processors and target_socket enter only through coreCount and "
+      "unpin is not read (bufCfg_factors, processor_settings_not_read_after_coreCount, unpin_not_read); every segment grid is at least 1x1 for every core count "
+      "(enc_dec_segments_pos: discharges C24's premise for every thread count), every stage has at least one worker, pools are at least the function's own minima, "
+      "the error return is dead. All 129 accesses to those members elsewhere in Source/Lib/Encoder are in a reviewed classified allow-list "
+      "(geometry_reads_classified; the three coding-decision reads are pinned). Tie: the REAL function vs the model on 5.6k (thorough 76k) inputs, all 79 written "
+      "members compared; the property's oracle: the REAL encoder swept over logical_processors 1,2,3,4,8,16 x unpin x target_socket, packets + recon byte-compared.",
+      AX + "; xlate/bufcfg.py + cfun.py (cross-checked by correspondence); NOT proved: that coding is independent of the parallelGeometry members (hypothesis "
+      "H-noread + C24/C23/C04) - the scan is textual and does not follow copies; the e2e sweep is a sample on a 16-processor, 1-group host; Windows branches not "
+      "translated; three recorded findings (pic_based_rate_est lp-1-only, rate control thread-dependent, rare nondeterminism at fixed threads with TPL).",
+      "Lean 4 proof over a model regenerated from C source (translator) + differential correspondence + real-encoder thread sweep",
+      "lean-translator")
+
+claim("C17", "other",
+      "Inventory of every run-time writable object with static storage duration in both libraries, regenerated every run from the linked objects (readelf) with "
+      "writers from an LLVM-IR taint pass over all translation units (978 globals); a reviewed classification is checked in the kernel (globals_classified, "
+      "harmful_globals_exact: 152 constants, 7 locked counters, 780 RTCD pointers + 39 named harmful globals; a new global or a new writer fails it); "
+      "noninterference / noninterference_n / noninterference_of_agreement are proved for all traces, interleavings and any number of instances of the model; "
+      "noninterference_fails_with + 9 instances show the hypothesis is necessary; library_is_not_interference_free states that it FAILS for the current tree. "
+      "harness/multi.c runs pairs/triples of REAL encoder/decoder instances in one process (presets, bit depth, cpu flags, thread counts, staggered life cycles, "
+      "perturbation, init storms) against solo runs; four recorded findings are reproduced by minimal scenarios each run; any other difference, crash or hang is a VIOLATION.",
+      AX + "; xlate/globals.py (writes through escaped addresses not followed; NASM objects listed, not analysed); Spec/GlobalsClass.lean is hand-reviewed; "
+      "sequentially consistent atomic steps; whole-library non-interference is NOT proved (its hypothesis is false on this tree) - it is decided per harmful global "
+      "by sampled real runs; races not hit in the runs are not detected; decoder instances single-threaded; solo nondeterminism handled by comparing with the set of "
+      "solo outputs; the SCHED_FIFO side effect of init_handle is invisible because checks drop CAP_SYS_NICE.",
+      "Lean 4 proof over a generic model + kernel-checked classification of a regenerated inventory (translator) + real multi-instance runs vs solo",
+      "lean-translator")
+
+claim("C04", "other",
+      "Protocol theorems, for every size, thread count and interleaving: dag_confluence / dag_equals_sequential / dag_progress for arbitrary task DAGs whose bodies "
+      "read only completed ancestors; instantiated for EncDec segments through the C24 model (encdec_guard_enforced, encdec_confluence, encdec_terminates) and for the "
+      "dependency-free segment grids (independent_grid_confluence, last_one_fires_once); handshake_no_lost_wakeup for the cond-var protocol (8-pc transition "
+      "system, spurious wake-ups, any number of setters/waiters, no fairness needed); reorder_inorder (C22) and srm_fifo (C23) re-exported; "
+      "network_output_deterministic / determinism_under_footprint: a Kahn network of deterministic stages with bounded FIFO capacities has one complete history, "
+      "under the NAMED hypothesis H-footprint (kernel bodies touch shared state only as the task model says), with footprint_needed as counterexample. The "
+      "property's oracle: each configuration of the REAL encoder is run at logical_processors=1 and under K seeded schedule perturbations (quick K=4, thorough "
+      "K=24) and packets + recon are byte-compared.",
+      AX + "; H-footprint is NOT proved: determinism of the real encoder is sampled; sequentially consistent atomic steps; the Wavefront/CondVar/Counter/Kahn models "
+      "are abstract and tied to the code only through C23/C24 and the sweep; recorded findings: rate control is schedule-dependent; a rare CQP nondeterminism.",
+      "Lean 4 protocol proofs for all interleavings + differential execution of the real encoder under seeded schedule perturbation and thread-count change",
+      "lean-correspondence")
+
+claim("C27", "other",
+      "From the SRM model (C23): nonblocking_never_blocks, nonblocking_token_stable, nonblocking_returns_iff_available, idempotent_registration; from the Kahn "
+      "network model: output_indep_of_polling under the NAMED hypothesis H-kahn (no library code branches on emptiness of an application-facing queue or on time), "
+      "with hkahn_needed as counterexample; hkahn_syntactic: a table of the callers of the non-blocking getters and of every clock read in the encoder library "
+      "(regenerated by a source scan each run) lies within a reviewed allow-list (decide); pool_sufficient_partial for an ABSTRACT linear chain (per-stage demands "
+      "are not instantiated from the code) and no_drain_deadlocks as the negative case. The property's oracle: a call-pattern sweep on the REAL encoder (drain "
+      "after every send / every k / only at end / random polling with delays; recon on/off; blocking vs non-blocking final drain) - drain-after-each-send must "
+      "complete, completing patterns must be byte-identical.",
+      AX + "; H-kahn is a hypothesis; progress with the real bounded pools is NOT proved; regex scanner + reviewed allow-list; CQP and speed_control_flag=0 only; "
+      "recorded findings: blocking final get_packet deadlocks against the recon pool (genuine), a rare output difference.",
+      "Lean 4 proofs + syntactic H-kahn table regenerated from the source + call-pattern sweep on the real encoder",
+      "lean-correspondence")
+
 _PENDING = ("check under construction (model planned in DESIGN.md section 5); not claimed until its theorem and correspondence run exist "
             "and pass on the unchanged tree")
-for _p in ["C01", "C04", "C05", "C08", "C09", "C10", "C11", "C17", "C20", "C27"]:
+for _p in ["C01", "C08", "C09", "C11", "C20"]:
     NOT_CLAIMED[_p] = _PENDING
